@@ -153,8 +153,15 @@ struct Vector {
 
     /// Moves the `value` as a new element to the end of this vector.
     void push_back(T &&value) {
-        detach(inner->size + 1);
-        new (end()) T(std::move(value));
+        if (inner->refcount != 1 || inner->size + 1 > inner->capacity) {
+            // `value` may refer to an element of this vector, whose storage is about to be
+            // replaced: move it out first.
+            T moved(std::move(value));
+            detach(inner->size + 1);
+            new (end()) T(std::move(moved));
+        } else {
+            new (end()) T(std::move(value));
+        }
         inner->size++;
     }
 
